@@ -75,8 +75,11 @@ fn mt(key: &'static str, s: S, required: bool) -> Member {
 pub const U8MAX: u64 = 0xff;
 pub const U32MAX: u64 = 0xffff_ffff;
 
+/// C16 restricts its corpus to members every configuration knows.
+pub static COMMON_ONLY: std::sync::atomic::AtomicBool = std::sync::atomic::AtomicBool::new(false);
+
 pub fn tpp() -> bool {
-    cfg!(feature = "tpp")
+    cfg!(feature = "tpp") && !COMMON_ONLY.load(std::sync::atomic::Ordering::Relaxed)
 }
 
 pub fn rp_entity() -> S {
@@ -114,6 +117,29 @@ pub fn descriptor_ref() -> S {
             mt("id", S::Bytes { min: 0, max: UNB }, true),
             mt("type", S::Text { max: UNB }, true),
         ],
+    })
+}
+
+pub fn descriptor_owned() -> S {
+    S::Map(MapS {
+        kind: "descriptor",
+        extensible: true,
+        members: vec![
+            mt("id", S::Bytes { min: 0, max: 255 }, true),
+            mt("type", S::Text { max: 32 }, true),
+        ],
+    })
+}
+
+pub fn ga_extensions_output() -> S {
+    let mut members = vec![mt("hmac-secret", S::Bytes { min: 0, max: 80 }, false)];
+    if tpp() {
+        members.push(mt("thirdPartyPayment", S::Bool, false));
+    }
+    S::Map(MapS {
+        kind: "ga_extensions_output",
+        extensible: true,
+        members,
     })
 }
 
@@ -326,6 +352,9 @@ pub struct G<'r> {
     pub focus: Option<(&'static str, u64)>,
     /// keep unbounded members small
     pub small: bool,
+    /// stay inside the lossless domain: names/icons within their capacity, no rp icon, only known
+    /// algorithms and formats (C15: round trips are the identity only there)
+    pub lossless: bool,
     pub depth: usize,
 }
 
@@ -337,6 +366,7 @@ impl<'r> G<'r> {
             nested: Nested::Random,
             focus: None,
             small: false,
+            lossless: false,
             depth: 0,
         }
     }
@@ -469,6 +499,10 @@ pub fn gen(s: &S, g: &mut G) -> V {
             let n = gen_len(g.rng, 0, *max, g.small);
             gen_text(g.rng, n)
         }
+        S::TextTrunc { max } | S::TextDropIfLonger { max } if g.lossless => {
+            let n = gen_len(g.rng, 0, *max, g.small);
+            gen_text(g.rng, n)
+        }
         S::TextTrunc { max } => {
             // mostly around the cut, sometimes far beyond
             let n = match g.rng.below(6) {
@@ -520,6 +554,7 @@ pub fn gen(s: &S, g: &mut G) -> V {
                         }
                     }
                 };
+                let present = present && !(g.lossless && matches!(mem.s, S::TextDiscard));
                 if present {
                     let key = if !mem.aliases.is_empty() && g.rng.chance(1, 3) {
                         V::text(mem.aliases[g.rng.usize(mem.aliases.len())])
@@ -552,6 +587,17 @@ pub fn gen(s: &S, g: &mut G) -> V {
             g.depth -= 1;
             v
         }
+        S::Params if g.lossless => {
+            let n = g.rng.usize(3);
+            V::A((0..n)
+                .map(|_| {
+                    V::M(vec![
+                        (V::text("alg"), V::int(*g.rng.pick(&[-7i128, -8]))),
+                        (V::text("type"), V::text("public-key")),
+                    ])
+                })
+                .collect())
+        }
         S::Params => {
             let n = match g.rng.below(6) {
                 0 => 0,
@@ -567,7 +613,7 @@ pub fn gen(s: &S, g: &mut G) -> V {
             V::A((0..n).map(|_| gen_format(g.rng)).collect())
         }
         S::CoseEcdh => {
-            let with_alg = g.rng.chance(3, 4);
+            let with_alg = g.lossless || g.rng.chance(3, 4);
             let xl = if g.rng.chance(3, 4) { 32 } else { g.rng.usize(33) };
             let yl = if g.rng.chance(3, 4) { 32 } else { g.rng.usize(33) };
             gen_cose_ecdh(g.rng, with_alg, xl, yl)
